@@ -1050,6 +1050,29 @@ func (x *extractor) factsAds() {
 		sign = fmt.Sprintf("per-request:%d;outside-the-loop:%d", inLoop, outside)
 	}
 	x.set("res_remote_sign", sign)
+	// (C17) Listener.Close closes the QUIC listener before the packet connection under it
+	lco := "unknown"
+	if fd := x.fn("pkg/netceptor/conn.go", "Listener", "Close"); fd != nil {
+		var ql, pc token.Pos
+		ast.Inspect(fd, func(n ast.Node) bool {
+			if c, ok := n.(*ast.CallExpr); ok {
+				switch x.str(c.Fun) {
+				case "li.ql.Close":
+					ql = c.Pos()
+				case "li.pc.Close":
+					pc = c.Pos()
+				}
+			}
+			return true
+		})
+		switch {
+		case ql != 0 && pc != 0 && ql < pc:
+			lco = "quic-listener<packet-conn"
+		case ql != 0 && pc != 0:
+			lco = "packet-conn<quic-listener"
+		}
+	}
+	x.set("sock_listener_close_order", lco)
 	// (C13) the command runner works in the directory it is given and never creates it
 	rmk := "unknown"
 	if fd := x.fn("pkg/workceptor/command.go", "", "commandRunner"); fd != nil {
